@@ -227,6 +227,7 @@ func runC19(p *eng.Prog, r *eng.Report, tier string) {
 	nloop := decoderLoopConsumes(c, "C19.10", inC19)
 	c.r.Note("C19.10: %d start-element edges in token loops examined", nloop)
 	noManualEscaping(c, "C19.35", inC19)
+	iteratorValuePerItem(c, "C19.36", inC19)
 	c.r.Floor("C19.34", "start-element edges in the token loops of the payload decoders", decoderLoopVisitsEveryChild(c, "C19.34", inC19), 1)
 	ntag := tagNamespaceAgreement(c, "C19.3", inC19)
 	c.r.Note("C19.3: %d decoder tags with an encoder counterpart examined", ntag)
@@ -594,4 +595,84 @@ func noManualEscaping(c *cx, id string, in func(f *eng.Fn) bool) {
 		}
 	}
 	c.r.Floor(id, "functions scanned for manual escaping", n, 50)
+}
+
+// iteratorValuePerItem (C19.36): the value an iterator reports is derived from
+// the item it just moved to. In every Next() bool method of the payload
+// packages, each receiver field that Next assigns somewhere (other than the
+// error field) is assigned on every path from the entry to a return that may
+// be true - a field that is only set when an optional attribute is present
+// keeps the previous item's value (the second of <item jid="a"/><item/> is
+// reported as "a" again, without an error).
+func iteratorValuePerItem(c *cx, id string, in func(f *eng.Fn) bool) {
+	n := 0
+	for _, f := range c.allFns() {
+		if !in(f) || f.Decl == nil || f.Decl.Name.Name != "Next" || f.Decl.Recv == nil {
+			continue
+		}
+		sig := f.Sig()
+		if sig == nil || sig.Params().Len() != 0 || sig.Results().Len() != 1 || eng.TypeStr(sig.Results().At(0).Type()) != "bool" {
+			continue
+		}
+		// item iterators only: types called ...Iter; paging.Iter is the
+		// transport below them (its page sets change at page boundaries, not
+		// per item) and is excluded by name
+		rt := eng.TypeStr(sig.Recv().Type())
+		if !strings.HasSuffix(rt, "Iter") || strings.HasSuffix(rt, "paging.Iter") {
+			continue
+		}
+		g := f.Graph()
+		fields := map[string]bool{}
+		for _, w := range f.Writes() {
+			sel, ok := ast.Unparen(w.LHS).(*ast.SelectorExpr)
+			if !ok {
+				continue
+			}
+			if rid, ok := ast.Unparen(sel.X).(*ast.Ident); !ok || f.Info().ObjectOf(rid) != types.Object(sig.Recv()) {
+				continue
+			}
+			cls, okc := f.FieldClass(sel)
+			if !okc || strings.HasSuffix(cls, ".err") {
+				continue
+			}
+			if t := f.Info().TypeOf(sel); t != nil && (eng.TypeStr(t) == "error" || hasMethod(t, "Next")) {
+				continue // the error, or the iterator this one wraps
+			}
+			fields[cls] = true
+		}
+		for _, cls := range sortedKeys(fields) {
+			cls := cls
+			isStore := func(q eng.Point, nd ast.Node) bool {
+				as, ok := nd.(*ast.AssignStmt)
+				if !ok {
+					return false
+				}
+				for _, l := range as.Lhs {
+					if k, ok := f.FieldClass(l); ok && k == cls {
+						if _, isSel := ast.Unparen(l).(*ast.SelectorExpr); isSel {
+							return true
+						}
+					}
+				}
+				return false
+			}
+			for _, rs := range g.Returns {
+				if len(rs.Results) != 1 {
+					continue
+				}
+				if cv := f.ConstVal(rs.Results[0]); cv != nil && cv.ExactString() == "false" {
+					continue
+				}
+				// a delegation to the next item (return i.Next()) is judged there
+				if cl, ok := ast.Unparen(rs.Results[0]).(*ast.CallExpr); ok && calleeFunc(f, cl) != nil && calleeFunc(f, cl) == f.Obj {
+					continue
+				}
+				n++
+				rp, _ := g.Where(rs)
+				// a loop that stores under a condition does not count: the store must be passed on EVERY path
+				c.r.Check(id, f, "field "+strings.TrimPrefix(cls, f.Pkg.Types.Name()+".")+" set for the item", "O: every return of Next that may be true has passed an assignment of the reported field (a value left over from the previous item is never reported)", rs.Pos(), g.MustPassBefore(g.Entry(), rp, isStore, nil), "a path reaches this return without assigning the field: the iterator reports the previous item's value for this item")
+			}
+		}
+	}
+	c.r.Floor(id, "reported fields of iterators on true returns", n, 6)
 }
